@@ -461,6 +461,12 @@ struct Plan {
 }
 
 fn gen_program(mode: &str, seed: u64, idx: u64, thorough: bool) -> Plan {
+    gen_program2(mode, seed, idx, thorough, false)
+}
+
+/// `batchy` (C03): batches and transactions over 2-3 keyspaces dominate, journal rotation is on, so that
+/// multi-keyspace batches sit in sealed and active journals while only some of their keyspaces are flushed.
+fn gen_program2(mode: &str, seed: u64, idx: u64, thorough: bool, batchy: bool) -> Plan {
     let mut rng = Rng::new(mix(&[seed, idx, 0x02]));
     let mut p = Profile::base();
     p.n_ks = rng.range(1, 3) as u8;
@@ -520,6 +526,21 @@ fn gen_program(mode: &str, seed: u64, idx: u64, thorough: bool) -> Plan {
             }
         }
     }
+    if batchy {
+        p.n_ks = rng.range(2, 3) as u8;
+        p.w_batch = 30;
+        p.w_tx = 20;
+        p.w_insert = 10;
+        p.w_remove = 4;
+        p.w_rotate = 10;
+        p.w_step = 10;
+        p.w_reopen = 2;
+        p.w_create = 0;
+        p.w_delete = 0;
+        p.max_val = 1_500;
+        scale = 16_000;
+        steps = if thorough { rng.range(40, 160) } else { rng.range(25, 80) } as usize;
+    }
     let _ = lifecycle;
     let front = rng.below(3) as u8;
     let lz4 = rng.chance(1, 2);
@@ -532,7 +553,7 @@ fn gen_program(mode: &str, seed: u64, idx: u64, thorough: bool) -> Plan {
         if rng.chance(3, 4) {
             c = (c & !3) | (rng.below(2) as u32);
         }
-        if mode == "unlink" && k == 0 {
+        if (mode == "unlink" || batchy) && k == 0 {
             c |= 3; // one lagging keyspace (64 MiB memtable): blocks journal eviction until rotated
         }
         c = (c & !(3 << 7)) | ((rng.below(2) as u32) << 7);
@@ -980,8 +1001,10 @@ pub(crate) fn torn_points(r: &Rec, rng: &mut Rng) -> Vec<usize> {
     v
 }
 
+pub static BATCHY: std::sync::atomic::AtomicBool = std::sync::atomic::AtomicBool::new(false);
+
 fn crash_like_case(mode: &str, seed: u64, idx: u64, thorough: bool, stats: &mut Counts, soft: &mut Vec<Deviation>) -> Result<String, Deviation> {
-    let plan = gen_program(mode, seed, idx, thorough);
+    let plan = gen_program2(mode, seed, idx, thorough, BATCHY.load(std::sync::atomic::Ordering::Relaxed));
     let run = run_child(&plan, &[], false, mode == "unlink")?;
     let res = (|| -> Result<String, Deviation> {
         if run.status != Some(0) {
@@ -1649,6 +1672,7 @@ pub fn main(args: &Args) -> i32 {
     let from = args.u64("from", 0);
     let to = args.u64("to", 2);
     let thorough = args.str("tier", "quick") == "thorough";
+    BATCHY.store(property == "C03", std::sync::atomic::Ordering::Relaxed);
     crate::watchdog::start(args.u64("case-timeout-s", 900));
     let t0 = std::time::Instant::now();
     let mut total = Counts::default();
